@@ -68,6 +68,9 @@ def eval_ext(toks, state):
     if op == "setpal":
         objs[toks[1]].set_HTMLColorResiduePalette(real.dict_tok(toks[2]))
         return ("none",)
+    if op == "wlrun":
+        from . import real_wl
+        return real_wl.run_wl(toks)
     if op == "move":
         from . import real_moves
         return real_moves.eval_move(toks, state)
